@@ -297,6 +297,22 @@ def shard(args):
                                      seps,
                                      comment_ends=('\n', '\r\n') if cr else
                                      ('\n', ))
+            if i % 40 == 7 and len(text) > 3:
+                # what was read before must not matter: a text that is cut
+                # off somewhere (inside a list, a literal, a quoted symbol or
+                # a comment), and a reading that is abandoned half way
+                cut = text[:r.randint(1, len(text) - 1)]
+                try:
+                    list(ns.nodeio.parse_smtlib(cut))
+                except Exception:  # noqa  (how a cut text is read is not
+                    pass           # judged here)
+                try:
+                    it = iter(ns.nodeio.parse_smtlib(text))
+                    next(it, None)
+                    del it
+                except Exception:  # noqa
+                    pass
+                res.count('damaged_or_abandoned_readings_in_between')
             check_text(ns, res, text, items, f'random:{args["shard"]}:{i}')
             res.add_distinct(common.digest(text))
             res.count('random_texts')
